@@ -133,7 +133,7 @@ def body(chk: check.Check):
                                                              side_by_side=len(batch)), match=dict(kind='value', features=[]))
     chk.extra['operator_slot_child_triples_covered'] = len(pairs)
     # vacuity: every operator class of the alphabets occurs in at least one replayed formula
-    wanted = {o.replace('bioMultSum3', 'bioMultSum') for o in pool1.unops + pool1.binops + pool1.naryops}
+    wanted = {o.replace('bioMultSum3', 'bioMultSum').replace('BelongsToHalf', 'BelongsTo') for o in pool1.unops + pool1.binops + pool1.naryops}
     missing = sorted(wanted - {p[0] for p in pairs})
     chk.extra['operator_classes_covered'] = sorted({p[0] for p in pairs})
     if missing:
